@@ -14,6 +14,8 @@ R33.5 keyword escaping (NamingHelper): (a) the keyword table consulted by is_rus
       excluded the keywords that cannot be raw identifiers (crate, self, Self, super); (c) both case converters
       (to_lower_snake_case, to_upper_camel_case) return through escape_rust_keyword on every path (`Self` is a keyword that
       starts with an upper-case letter).
+R33.7 the name compared with the scope's names is the name stored: make_unique_name returns generate_name's result unchanged and
+      its argument is already case-converted.
 R33.6 the case converters test for the degenerate result (no alphanumeric character): `_` and `__` are accepted
       non-terminal names.  Both converters lack the test today: known finding D18.
 Validity of the other identifiers (remaining string computations in NamingHelper) is NOT decided."""
@@ -83,6 +85,67 @@ def check(ctx):
     r33_4(ctx, facts)
     r33_5(ctx, facts)
     r33_6(ctx, facts)
+    r33_7(ctx, facts)
+
+
+def r33_7(ctx, facts):
+    """R33.7 (added after seed C33-b) the name that is compared with the names of the scope is the name that is stored: every value
+    Scope::make_unique_name returns is the result of generate_name itself (or the UNNAMED constant) - nothing is applied to it
+    afterwards.  Scope.names holds names in their final spelling (case conversion, keyword escaping); a conversion applied after
+    the uniqueness check compares a raw name with converted ones, so `foo_bar` and `FooBar` both end up as `FooBar`."""
+    from ..dataflow import raw_place
+    b = facts.body(SCOPE + "::make_unique_name")
+    gens = [c for c in b.calls() if (c.path or "").split("::")[-1] == "generate_name"]
+    if not gens:
+        raise AnchorMissing("Scope::make_unique_name no longer calls generate_name")
+    moved = set()
+    for g in gens:
+        moved.add(g.dest[0])
+    changed = True
+    while changed:
+        changed = False
+        for bi, si, p, rv, line, mac in b.assigns():
+            if len(p) == 1 and p[0] not in moved and rv[0] == "use" and rv[1][0] in ("c", "m") and len(rv[1][1]) == 1 \
+                    and rv[1][1][0] in moved:
+                moved.add(p[0])
+                changed = True
+    n = 0
+    for c in b.calls():
+        if c.dest == [0]:
+            n += 1
+            last = (c.path or "").split("::")[-1]
+            unnamed = bool(c.args) and (lambda t: t[0] == "const" and (t[3] or "").endswith("UNNAMED_TYPE"))(operand_term(b, c.args[0]))
+            ok = c in gens or (last in ("to_string", "to_owned", "from", "into") and unnamed)
+            ctx.check(ok, "R33.7", "make_unique_name|returns-checked-name|%s" % (last if c.path else "indirect-call"),
+                      "make_unique_name returns %s" % ("the result of generate_name" if c in gens else "the UNNAMED constant"),
+                      "make_unique_name returns the result of %s, not of generate_name: the name is changed after it was compared "
+                      "with the names of the scope (or is not compared at all)" % (short(c.path) if c.path else "an indirect call"),
+                      where(b, c.line))
+    for bi, si, p, rv, line, mac in b.assigns():
+        if p == [0]:
+            n += 1
+            ok = rv[0] == "use" and rv[1][0] in ("c", "m") and len(rv[1][1]) == 1 and rv[1][1][0] in moved
+            ctx.check(ok, "R33.7", "make_unique_name|returns-checked-name|assign",
+                      "make_unique_name returns the result of generate_name (moved)",
+                      "make_unique_name returns a value that is not the unchanged result of generate_name", where(b, line))
+    ctx.require_floor("R33.7", "make_unique_name_returns", n, 2)
+    # the converted name goes *into* generate_name at the symbol-creating sites: the preferred-name argument of
+    # make_unique_name is the result of a NamingHelper case converter
+    m = 0
+    for fb in facts.in_crate(PA):
+        if fb.module != "parol::generators::symbol_table":
+            continue
+        for c in fb.calls():
+            if c.path == SCOPE + "::make_unique_name" and len(c.args) > 1:
+                m += 1
+                t = operand_term(fb, c.args[1])
+                conv = t[0] == "call" and "NamingHelper" in (t[1].path or "") and (t[1].path or "").split("::")[-1].startswith("to_")
+                ctx.check(conv, "R33.7", "%s|preferred-name-is-converted" % fn_key(fb, facts),
+                          "the preferred name handed to make_unique_name is already case-converted (%s)"
+                          % (short(t[1].path) if t[0] == "call" else t[0]),
+                          "the name handed to make_unique_name is not the result of a NamingHelper case converter: the uniqueness "
+                          "check then runs on a spelling that is not the one stored in the scope", where(fb, c.line))
+    ctx.require_floor("R33.7", "make_unique_name_sites", m, 2)
 
 
 def r33_4(ctx, facts):
